@@ -34,6 +34,27 @@ class Spec(ProgramSpec):
             self.cache[k] = adapters.impl_write(*case)
         return self.cache[k]
 
+    def cases(self, ctx, budget, rng):
+        # 3 %: one preamble call gets an indent that is not a non-negative integer; the writer
+        # must either refuse the call or write something the reader gives back (D27)
+        for case in ProgramSpec.cases(self, ctx, budget, rng):
+            ps = [i for i, c in enumerate(case[2]) if c[0] == 'P']
+            if ps and rng.random() < 0.03:
+                i = rng.choice(ps)
+                calls = list(case[2])
+                c = calls[i]
+                calls[i] = c[:3] + (rng.choice([-1, -4, True, False]),) + c[4:]
+                case = (case[0], case[1], calls)
+            yield case
+
+    @staticmethod
+    def bad_indent(case):
+        for i, c in enumerate(case[2]):
+            if c[0] == 'P' and c[3] != 'default' and c[3] is not None and (
+                    isinstance(c[3], bool) or c[3] < 0):
+                return i
+        return None
+
     def request(self, case):
         res, data = self.written(case)
         if data is None:
@@ -52,6 +73,9 @@ class Spec(ProgramSpec):
     def oracle(self, case, impl_res):
         res, data = self.written(case)
         bad = []
+        bi = self.bad_indent(case)
+        if bi is not None and data is not None and not res.split(' ')[bi + 1].startswith('ok/'):
+            return []        # the invalid call was refused: nothing of it is in the stream (C09)
         if data is None or not all(r.startswith('ok/') for r in res.split(' ')[:-1]):
             return [{'what': 'a well-ordered valid program was rejected: %s' % res[:300],
                      'program': gen.program_to_json(case)}]
